@@ -86,6 +86,10 @@ func init() {
 		}
 		return "ok"
 	}
+	ops.Calls["pillar-deposit-znn"] = func(o ops.Op) *nom.AccountBlock {
+		return &nom.AccountBlock{BlockType: nom.BlockTypeUserSend, Address: ops.Users[o.A].Address, ToAddress: types.PillarContract,
+			TokenStandard: types.ZnnTokenStandard, Amount: big.NewInt(o.V * 100000000), Data: definition.ABIPillars.PackMethodPanic(definition.DepositQsrMethodName)}
+	}
 	ops.Calls["sentinel-withdraw-qsr"] = func(o ops.Op) *nom.AccountBlock {
 		return &nom.AccountBlock{BlockType: nom.BlockTypeUserSend, Address: ops.Users[o.A].Address, ToAddress: types.SentinelContract,
 			TokenStandard: types.ZnnTokenStandard, Amount: big.NewInt(0), Data: definition.ABISentinel.PackMethodPanic(definition.WithdrawQsrMethodName)}
@@ -130,6 +134,7 @@ func families(thorough bool) []family {
 		{K: "CancelStake", A: 2, B: 0}, // stranger (or owner, depending on who created entry 0)
 		{K: "CancelStake", A: 2, B: 1},
 		{K: "CancelStake", A: 1, B: 7}, // unknown id
+		{K: "Call", S: "stake-qsr", A: 1, V: 10}, // deposit attempt in the wrong token
 		{K: "Call", S: "stake-collect", A: 1},
 	}}
 	plasma := family{name: "plasma", alpha: []ops.Op{
@@ -140,6 +145,8 @@ func families(thorough bool) []family {
 		{K: "CancelFuse", A: 1, B: 0}, // beneficiary of fusion 0 is not its owner
 		{K: "CancelFuse", A: 1, B: 1},
 		{K: "CancelFuse", A: 0, B: 7},
+		{K: "Call", S: "fuse-znn", A: 2, B: 2, V: 50}, // deposit attempt in the wrong token
+		{K: "CancelFuse", A: 2, B: 2},                 // ... and its withdrawal (third fusion created, if the attempt was taken)
 	}}
 	sent := family{name: "sentinel", alpha: []ops.Op{
 		M,
@@ -160,6 +167,7 @@ func families(thorough bool) []family {
 		{K: "Call", S: "pillar-withdraw-qsr", A: 1},
 		{K: "Call", S: "pillar-withdraw-qsr", A: 2},
 		{K: "Call", S: "pillar-withdraw-qsr", A: 3},
+		{K: "Call", S: "pillar-deposit-znn", A: 3, V: 10}, // deposit attempt in the wrong token
 	}}
 	for _, f := range []*family{&stake, &plasma, &sent, &pillar} {
 		f.bases = []hx.Base{{Name: f.name + "/genesis"}}
